@@ -3,7 +3,7 @@
 # pristine worktree of /repo HEAD, the patch applies and builds, the repository suite still passes
 # (baseline), and the demo fails with the patch.  Confirmed ones are copied to /verif/seeded/<ID>-<N>/.
 export GOFLAGS=-mod=mod GOPROXY=off GOSUMDB=off GOTOOLCHAIN=local
-WT=/tmp/mutcheck
+WT=${WT:-/tmp/mutcheck}
 SRC=${1:-/tmp/mut}
 ONLY=${2:-}
 git -C /repo worktree remove --force $WT 2>/dev/null
